@@ -7,6 +7,7 @@ import (
 	"encoding/binary"
 	"errors"
 	"fmt"
+	"math"
 	"os"
 	"path/filepath"
 	"runtime"
@@ -30,6 +31,7 @@ import (
 	"github.com/celestiaorg/celestia-node/share/eds"
 	"github.com/celestiaorg/celestia-node/share/shwap"
 	"github.com/celestiaorg/celestia-node/share/shwap/p2p/shrex"
+	"github.com/celestiaorg/celestia-node/share/shwap/pb"
 	shrexpb "github.com/celestiaorg/celestia-node/share/shwap/p2p/shrex/pb"
 	"github.com/celestiaorg/celestia-node/share/shwap/p2p/shrex/peers"
 	"github.com/celestiaorg/celestia-node/share/shwap/p2p/shrex/shrex_getter"
@@ -85,10 +87,11 @@ const (
 	c06Reset
 	c06StallHalf
 	c06Silent
+	c06OddProof
 	c06Behs
 )
 
-var c06BehNames = [...]string{"wrongpos", "twin", "truncated", "extended", "garbled", "notfound", "internal", "badstatus", "reset", "stallhalf", "silent"}
+var c06BehNames = [...]string{"wrongpos", "twin", "truncated", "extended", "garbled", "notfound", "internal", "badstatus", "reset", "stallhalf", "silent", "oddproof"}
 
 func c06ScriptName(s []c06Beh) string {
 	out := make([]string, len(s))
@@ -737,9 +740,69 @@ func c06Action(cs *c06ShrexCase, beh c06Beh, req vkit.ShrexReq, r *vkit.RNG) vki
 	case c06StallHalf:
 		p := payload(req.ID, "")
 		return vkit.ShrexAction{Kind: vkit.ShrexStall, Payload: p[:len(p)/2], Release: cs.done, Label: name}
+	case c06OddProof:
+		p, how := c06OddProofPayload(r, cs.req.kind, payload(req.ID, "twin"))
+		return vkit.ShrexAction{Kind: vkit.ShrexPayloadClose, Payload: p, Label: name + "/" + how}
 	default:
 		return vkit.ShrexAction{Kind: vkit.ShrexSilent, Release: cs.done, Label: name}
 	}
+}
+
+// c06OddProofPayload rewrites the twin square's reply (well-formed containers with shares that are
+// NOT the committed ones) so that its proofs are structurally odd rather than merely wrong: an empty
+// proof range, no proof nodes, a proof axis outside {row, column} — negative included, the enum is a
+// signed varint on the wire. Verification has separate rejection paths for these.
+func c06OddProofPayload(r *vkit.RNG, kind c06Kind, twin []byte) ([]byte, string) {
+	frames, ok := c06Frames(twin)
+	if !ok || len(frames) == 0 {
+		return twin, "as-twin"
+	}
+	variant := r.Intn(5)
+	how := []string{"empty-range-no-nodes", "empty-range", "axis-negative", "axis-2", "axis-min-int32"}[variant]
+	var out []byte
+	reframe := func(b []byte) {
+		out = binary.AppendUvarint(out, uint64(len(b)))
+		out = append(out, b...)
+	}
+	for _, f := range frames {
+		_, n := binary.Uvarint(f)
+		body := f[n:]
+		switch kind {
+		case c06Samples:
+			var m pb.Sample
+			if m.Unmarshal(body) != nil || m.Proof == nil {
+				return twin, "as-twin"
+			}
+			switch variant {
+			case 0:
+				m.Proof.End, m.Proof.Nodes = m.Proof.Start, nil
+			case 1:
+				m.Proof.End = m.Proof.Start
+			case 2:
+				m.ProofType = -1
+			case 3:
+				m.ProofType = 2
+			default:
+				m.ProofType = math.MinInt32
+			}
+			reframe(marshalPB(&m))
+		case c06ND:
+			var m pb.RowNamespaceData
+			if m.Unmarshal(body) != nil || m.Proof == nil {
+				return twin, "as-twin"
+			}
+			if variant%2 == 0 {
+				m.Proof.End, m.Proof.Nodes = m.Proof.Start, nil
+			} else {
+				m.Proof.End = m.Proof.Start
+			}
+			how = []string{"empty-range-no-nodes", "empty-range"}[variant%2]
+			reframe(marshalPB(&m))
+		default:
+			return twin, "as-twin"
+		}
+	}
+	return out, how
 }
 
 // ---------------------------------------------------------------------------------------------
@@ -960,7 +1023,7 @@ func (c *c06) runShrexCase(net *c06Net, cs *c06ShrexCase) {
 	resCh := make(chan outT, 1)
 	go func() {
 		var o outT
-		o.panicked = run.NoPanic(fmt.Sprintf("C06 shrex %s:", c06KindNames[q.kind]), cs.desc(), func() {
+		o.panicked = run.NoPanic(fmt.Sprintf("%s shrex %s:", c.propID(), c06KindNames[q.kind]), cs.desc(), func() {
 			o.res = c06Call(ctx, getter, q, hdr)
 		})
 		resCh <- o
